@@ -910,7 +910,10 @@ def exFrame : FrameM :=
     trust := .context, ctx := ⟨4, [("eip", 0x401234), ("esp", 0xff00)], some ["eip"]⟩ }
 
 def exState : StateModel :=
-  { pid := some 42, certInfo := [], exc := some ⟨"SIGSEGV", 0x10, some (.nullOffset 0x10), none, none, none, [], []⟩,
+  { pid := some 42, certInfo := [], exc := some ⟨"SIGSEGV", 0x10, some (.nullOffset 0x10), some "add dword [rbx], eax",
+      some [⟨0x10, some 4, true, .readWrite⟩, ⟨0xff00, none, false, .underivable⟩], some (.update 0x401000 false),
+      [⟨0x10, some "rbx", false, false, false, 2, true, some ⟨false, 0, [2, 5], none⟩⟩],
+      [.crashingAccessNotFoundInMemoryAccesses]⟩,
     assertion := none, requestingThread := some 0,
     threads := [⟨[exFrame], 7, some "t", none⟩, ⟨[], 8, none, none⟩],
     sys := ⟨.linux, some "5.4", none, .x86, none, 4, some 0x1f⟩, lsb := none, procLimits := none,
@@ -944,7 +947,7 @@ example : Typed exState := by
     · simp at hf
   · intro e he
     simp [exState] at he; subst he
-    constructor <;> simp [U64MAX]
+    constructor <;> simp [U64MAX, U32MAX]
   · simp [exState]
   · simp [exState, U64MAX]
 
